@@ -840,7 +840,16 @@ func (in *Interp) fmtArgT(v Value, t types.Type, verb byte) Str {
 		if verb == 'c' && x.Sort.K == term.KBV {
 			return Str{[]*term.Term{term.Extract(x, 7, 0)}}
 		}
+		if verb == 'v' || verb == 'd' {
+			if s, ok := in.fmtDecimal(x, t); ok { // opt-in "fmt:decimal" (intr_fmtdecimal.go)
+				return s
+			}
+		}
 		return in.opaqueString("fmt")
+	case Ptr:
+		if s, ok := in.fmtPointer(x); ok { // opt-in "fmt:decimal" (intr_fmtdecimal.go)
+			return s
+		}
 	}
 	return in.opaqueString("fmt")
 }
